@@ -158,6 +158,12 @@ func directedHistories() map[string]History {
 	out["S28-double-sign-of-a-jailed-validator"] = History{gj, cat(empty(1, 1), jail0, empty(1, 1), []BlockSpec{{Dt: 1, Evidence: evAt(0, 4, 10)}}, []BlockSpec{unjail0}, empty(2, 1), empty(2, 30))}
 	// ... two entries in one block, one with a power far above what the validator holds (the burn is capped by its tokens)
 	out["S29-two-double-signers-one-block"] = History{gj, cat(empty(3, 1), []BlockSpec{{Dt: 1, Evidence: []EvSpec{{Cons: 0, Height: 3, Time: 3, Power: 9_000_000_000_000}, {Cons: 1, Height: 2, Time: 2, Power: 1}}}}, empty(3, 1), empty(2, 30))}
+	// a removed validator whose last votes are still counted misses them (bits written after the removal cleared its records),
+	// waits out its unbonding period, applies again and is admitted: its missed-block counter and bitmap must start together
+	out["S30-removed-validator-misses-its-last-votes-then-returns"] = History{gj, cat(empty(2, 1),
+		[]BlockSpec{{Dt: 1, Absent: []int{0}, Txs: []TxSpec{tx(rm(adminID, 0))}}, {Dt: 1, Absent: []int{0}}, {Dt: 1, Absent: []int{0}}}, empty(3, 20),
+		[]BlockSpec{blk(tx(createMsg(0, 0))), blk(tx(sp(adminID, 0, 9*M, true)))}, empty(2, 1),
+		[]BlockSpec{{Dt: 1, Absent: []int{0}}, {Dt: 1}, {Dt: 1, Absent: []int{0}}, {Dt: 1}}, empty(2, 1))}
 	upCreate := createMsg(3, 4)
 	upCreate.Upper = true
 	upSp := sp(adminID, 3, 2*M, true)
